@@ -13,6 +13,7 @@ EXPLANATION = (
     '(R2 also: each entry point consumes the harness outcome with its tabled consumer (catch vs pass) and sim-end teardown reaches every module; R5 also, shared with C09.R1: every handler invocation is dominated by active == true, which is what keeps a panicked module inert.) '
     "(R3 also, shared with C12.R4: no step of a module's tear-down, including the collection of joined tasks' outcomes, depends on the module being active.) "
     '(R7) no decision of the start-up schedule reads the collected errors, and nothing of a module runs between the harnessed callback and the consumption of its outcome. '
+    "(R3 also, shared with C09.R4: the restart of a module runs at_sim_start on it again.) "
     "Decides these necessary conditions only; not that healthy modules behave as if the faulty one fell silent.")
 ASSUMPTIONS = ["catch_unwind catches every unwinding panic (panic=unwind build)", "processing elements are simulator-side code, not covered by the statement"]
 
